@@ -103,7 +103,9 @@ Tun0 == [ opened |-> FALSE, started |-> FALSE, startFail |-> FALSE, chdone |-> F
           firstCause |-> "", lastBlocked |-> <<>>, doneAtTeardown |-> TRUE,
           \* what the tunnel endpoints must have concluded from the frames delivered so far
           srvLastSeen |-> -1, srvMustDie |-> FALSE, cliMustDie |-> FALSE, cliMustFailStart |-> FALSE,
-          s2cDeliv |-> 0, idleC2S |-> -1, idleS2C |-> -1, takenC2S |-> 0, takenS2C |-> 0, revUsed |-> -1, chid |-> 0 ]
+          s2cDeliv |-> 0, idleC2S |-> -1, idleS2C |-> -1, takenC2S |-> 0, takenS2C |-> 0, revUsed |-> -1, chid |-> 0,
+          \* the channel has recorded its end (hook cli.close.marked); Err() was first read before that
+          closeMarked |-> FALSE, chEarly |-> FALSE ]
 
 Q0 == [ at |-> FALSE, final |-> FALSE, blocked |-> <<>>, h |-> <<>>, parked |-> <<>>, ctab |-> -1, stab |-> 0,
         nsrv |-> 0, qc2s |-> 0, qs2c |-> 0, g |-> -1, chdone |-> FALSE ]
@@ -589,7 +591,7 @@ OCar(e) ==
 OTun(e) ==
   /\ tun' = CASE e.what = "started"   -> [ tun EXCEPT !.started = TRUE, !.chid = IF "ch" \in DOMAIN e THEN e.ch ELSE @ ]
               [] e.what = "startfail" -> [ tun EXCEPT !.startFail = TRUE, !.chErr = e.cls ]
-              [] e.what = "chdone"    -> [ tun EXCEPT !.chdone = TRUE, !.chErr = e.cls ]
+              [] e.what = "chdone"    -> [ tun EXCEPT !.chdone = TRUE, !.chErr = e.cls, !.chEarly = ~tun.closeMarked ]
               [] e.what = "serveret"  -> [ tun EXCEPT !.serveRet = TRUE, !.serveCls = e.cls ]
               [] OTHER -> tun
   /\ ws' = IF e.what = "chdone" THEN AllLocal("tunnel") ELSE ws
@@ -633,6 +635,12 @@ OSkip ==
   /\ QOff
   /\ UNCHANGED <<cfg, ws, rp, tun, bad, now, meta>>
 
+\* the channel recorded its end (its error, or none): Err() is settled from here on
+OCloseMarked ==
+  /\ tun' = [ tun EXCEPT !.closeMarked = TRUE ]
+  /\ QOff
+  /\ UNCHANGED <<cfg, ws, rp, bad, now, meta>>
+
 \* registry callbacks of a reverse tunnel: the channel becomes known
 OReg(e) ==
   /\ tun' = IF e.what = "open" /\ tun.chid = 0 THEN [ tun EXCEPT !.chid = e.ch ] ELSE tun
@@ -666,6 +674,7 @@ OEvent(e) ==
     [] e.ev = "scenario"  -> OScenario(e)
     [] e.ev = "wire.idle" -> OIdle(e)
     [] e.ev = "reg"       -> OReg(e)
+    [] e.ev = "hook" /\ e.point = "cli.close.marked" -> OCloseMarked
     [] OTHER              -> OSkip
 
 ---------------------------------------------------------------------------
